@@ -10,7 +10,9 @@ import (
 	"golang.org/x/tools/go/ssa"
 )
 
-func init() { register("C12", "the environment API behaves as a chain of dictionaries", func(p *Program, r *Report) { checkC12(p, r); c12Extra(p, r) }) }
+func init() {
+	register("C12", "the environment API behaves as a chain of dictionaries", func(p *Program, r *Report) { checkC12(p, r); c12Extra(p, r) })
+}
 
 func checkC12(p *Program, r *Report) {
 	r.Explain("C12: structural skeleton of the dictionary-chain refinement, decided on the SSA of package env (closed world: unexported fields). " +
